@@ -1114,6 +1114,11 @@ def fromFunction(func, interface=None, imlevel=0, name=None):
     # Number of positional arguments
     na = code.co_argcount - imlevel
     names = code.co_varnames[imlevel:]
+    if na < 0:
+        # The implied leading argument (``self``) is taken by ``*args``:
+        # there is no positional name to skip.
+        na = 0
+        names = code.co_varnames
     opt = {}
     # Number of required arguments
     defaults_count = len(defaults)
